@@ -1,0 +1,7 @@
+//go:build !verif
+
+package cmd
+
+// verifYield is a no-op unless dae is built with the `verif` tag
+// (runtime-verification hooks, see verif_hook_on.go).
+func verifYield(string) {}
